@@ -148,10 +148,54 @@ def extract(config='dev', repo=None):
     return d
 
 
+def extract_fixture(name='positive'):
+    """Facts of the positive-control fixture crate (compiled by the same driver)."""
+    ensure_driver()
+    src = os.path.join(VERIF, 'fixtures', name)
+    h = hashlib.sha256()
+    for root, dirs, files in os.walk(src):
+        dirs[:] = sorted(d for d in dirs if d != 'target')
+        for fn in sorted(files):
+            with open(os.path.join(root, fn), 'rb') as fh:
+                h.update(fn.encode() + b'\0' + fh.read())
+    st = os.stat(DRIVER_BIN)
+    h.update(('%d:%d' % (st.st_size, int(st.st_mtime))).encode())
+    d = os.path.join(FACTS, 'fixture-%s-%s' % (name, h.hexdigest()[:12]))
+    ok = os.path.join(d, 'OK')
+    if os.path.exists(ok):
+        return d
+    os.makedirs(FACTS, exist_ok=True)
+    os.makedirs(CACHE, exist_ok=True)
+    with open(os.path.join(CACHE, 'extract-fixture.lock'), 'w') as lk:
+        fcntl.flock(lk, fcntl.LOCK_EX)
+        if os.path.exists(ok):
+            return d
+        tmp = d + '.tmp%d' % os.getpid()
+        shutil.rmtree(tmp, ignore_errors=True)
+        os.makedirs(tmp)
+        target = os.path.join(CACHE, 'target-fixture')
+        shutil.rmtree(os.path.join(target, 'debug', '.fingerprint'), ignore_errors=True)
+        env = _env()
+        env['PKFACTS_OUT'] = tmp
+        env['RUSTFLAGS'] = '-Zmir-opt-level=0 -Awarnings'
+        env['RUSTC_WORKSPACE_WRAPPER'] = DRIVER_BIN
+        env['CARGO_TARGET_DIR'] = target
+        p = subprocess.run(['cargo', '+nightly', 'check', '--offline', '--lib'], cwd=src, env=env,
+                           stdout=subprocess.PIPE, stderr=subprocess.STDOUT)
+        if p.returncode != 0 or not any(n.endswith('.json') for n in os.listdir(tmp)):
+            shutil.rmtree(tmp, ignore_errors=True)
+            raise ExtractError('fixture extraction failed:\n' + p.stdout.decode(errors='replace')[-2000:])
+        shutil.rmtree(d, ignore_errors=True)
+        os.rename(tmp, d)
+        with open(ok, 'w') as fh:
+            fh.write('ok\n')
+    return d
+
+
 def _prune(keep=8):
     try:
         ds = [os.path.join(FACTS, n) for n in os.listdir(FACTS)]
-        ds = [p for p in ds if os.path.isdir(p) and '.tmp' not in p]
+        ds = [p for p in ds if os.path.isdir(p) and '.tmp' not in p and 'fixture-' not in p]
         ds.sort(key=os.path.getmtime, reverse=True)
         for p in ds[keep:]:
             shutil.rmtree(p, ignore_errors=True)
